@@ -113,6 +113,9 @@ pub fn exec_step(gi: usize, t: usize, s: &Value, guards: &mut Vec<dispatch::Defa
                 let d = if s["st"].as_bool().unwrap_or(false) {
                     let c: &'static RecCollect = Box::leak(Box::new(RecCollect::new(k as usize, f.clone())));
                     Dispatch::from_static(c)
+                } else if let Some(n) = s["nested"].as_u64() {
+                    // a collector that emits events of its own inside its `event` callback
+                    Dispatch::new(RecCollect::new(k as usize, f.clone()).with_nested(n as u8))
                 } else if let Some(site) = s["eod"].as_u64() {
                     // a collector that emits a farewell event from its own destructor
                     Dispatch::new(RecCollect::new(k as usize, f.clone()).with_emit_on_drop(site as usize))
@@ -523,6 +526,8 @@ impl Engine for CoreEngine {
                         steps.push(json!({"t": t, "op": "new", "k": k, "f": f, "st": true}));
                     } else if prop == "C02" && !sync && rng.chance(1, 3) {
                         steps.push(json!({"t": t, "op": "new", "k": k, "f": f, "eod": rng.below(sites::N as u64)}));
+                    } else if prop == "C02" && !sync && rng.chance(1, 3) {
+                        steps.push(json!({"t": t, "op": "new", "k": k, "f": f, "nested": rng.range(2, 3)}));
                     } else if prop == "C01" && rng.chance(1, 4) {
                         steps.push(json!({"t": t, "op": "new", "k": k, "f": f, "late": true}));
                     } else {
@@ -887,6 +892,12 @@ fn oracle(prop: &str, sync: bool, hist: &[Hist], log: &[Rec], filters: &[Option<
                     check_emission(t, site, kind, val, inv, ret, &[h.k], &flipped, &mut expected_deliveries, &mut expected_suppressions, false);
                     seen_scoped_delivery = true;
                 }
+            }
+            "emit" | "with" if !sync && (h.op == "with" || !scopes[t].is_empty()) && log.iter().any(|r| r.thread == t && r.stamp > h.inv && r.stamp < h.ret && matches!(r.kind, "event" | "new_span") && (9_000_000..9_500_000).contains(&r.val)) => {
+                // while a scoped default exists, what a collector emits from inside its own callback is discarded
+                // (the dispatcher's re-entry guard hands nested calls the no-op collector)
+                violation("reentrant-delivery", format!("op {} on t{t}: a collector was called again (event emitted from inside its own callback) while a scoped default is in force", h.gi));
+                return;
             }
             "emit" if h.rpanic => {} // the registration panicked before the emission could be dispatched
             "emit" => {
